@@ -54,7 +54,7 @@ COMPONENTS = {
 
 OPS = ["set_weights", "set_means", "set_variances", "set_floor", "em_step", "em_step",
        "deepcopy", "pickle", "shallow_copy", "hdf5_from", "hdf5_load", "nudge_variances", "nudge_floor",
-       "em_many", "aug_assign", "edit_reassign", "lend_arrays", "parallel_stats"]
+       "em_many", "aug_assign", "edit_reassign", "lend_arrays", "parallel_stats", "marginalise"]
 
 
 def setup():
@@ -143,6 +143,12 @@ def gen_case(rng, tier):
             X = sig6(means[rs.randint(0, c, size=n)] + rs.randn(n, d) * scale * 1.2)
             ops.append({"op": name, "X": L(X), "steps": rng.randint(15, 60),
                         "uw": rng.random() < 0.5})
+        elif name == "marginalise":
+            # the model is reduced to a subset of its features by slicing its parameters
+            # through the setters, in either order
+            kp = sorted(rng.sample(range(d), rng.randint(1, d)))
+            ops.append({"op": name, "keep": kp,
+                        "order": rng.choice(["variances_first", "means_first"])})
         elif name == "hdf5_from":
             ops.append({"op": name, "by": rng.choice(["path", "file"])})
         elif name == "hdf5_load":
@@ -258,6 +264,14 @@ def run_case(case, replay=None):
     rec = SimRec(replay)
     probe = A(case["probe"])
     m, prior = _build(case)
+    cols = list(range(case["d"]))  # the features (of the original ones) the model still has
+
+    def cut(a):
+        """feature-shaped arrays of the case, reduced to the model's current features"""
+        a = np.asarray(a)
+        if len(cols) != case["d"] and a.ndim >= 1:
+            return np.ascontiguousarray(a[..., cols])
+        return a
     tmp = tempfile.mkdtemp(prefix="verif-c17-")
     nontrivial = False
     held = []
@@ -273,19 +287,20 @@ def run_case(case, replay=None):
                     if name == "set_weights":
                         m.weights = _lay(o, A(o["v"]))
                     elif name == "set_means":
-                        m.means = _lay(o, A(o["v"]))
+                        m.means = _lay(o, cut(A(o["v"])))
                     elif name == "set_variances":
-                        arr = _lay(o, A(o["v"]))
+                        arr = _lay(o, cut(A(o["v"])))
                         rec.probe("non_c_contiguous_array_assigned", o.get("lay") is not None)
                         held.append(arr)  # the caller keeps the array it assigned
                         m.variances = arr
                     elif name == "set_floor":
                         old = np.asarray(m.variance_thresholds, float)
-                        new = np.asarray(_floor(o["v"]), float)
+                        new = np.asarray(cut(_floor(o["v"])), float)
                         rec.probe("floor_raised", bool((new > old).any()))
                         rec.probe("floor_lowered", bool((new < old).any()))
                         before = np.array(m.variances, float)
                         fl = _floor(o["v"])
+                        fl = cut(fl) if isinstance(fl, np.ndarray) else fl
                         m.variance_thresholds = _lay(o, fl) if isinstance(fl, np.ndarray) else fl
                         rec.probe("floor_clamped_something",
                                   bool((np.asarray(m.variances) != before).any()))
@@ -293,7 +308,7 @@ def run_case(case, replay=None):
                         nontrivial = True
                         m.update_means, m.update_variances, m.update_weights = o["um"], o["uv"], o["uw"]
                         m.max_fitting_steps = 1
-                        X = A(o["X"])
+                        X = cut(A(o["X"]))
                         if o["backend"] == "da":
                             def go(X=X, o=o):
                                 m.fit(da.from_array(X, chunks=(tuple(o["chunks"]), (X.shape[1],))))
@@ -343,9 +358,24 @@ def run_case(case, replay=None):
                                 keep *= k
                             setattr(m, attr, keep)
                             rec.probe("edited_array_reassigned")
+                    elif name == "marginalise":
+                        machines = [m] + ([m.ubm] if getattr(m, "ubm", None) is not None else [])
+                        kp = [j for j in range(len(cols)) if cols[j] in o["keep"]]
+                        if kp and len(kp) < len(cols) and all(
+                                np.ndim(g.variance_thresholds) == 0 for g in machines):
+                            for g in machines:
+                                if o["order"] == "variances_first":
+                                    g.variances = np.array(g.variances, float)[:, kp]
+                                    g.means = np.array(g.means, float)[:, kp]
+                                else:
+                                    g.means = np.array(g.means, float)[:, kp]
+                                    g.variances = np.array(g.variances, float)[:, kp]
+                            cols[:] = [cols[j] for j in kp]
+                            probe = probe[:, kp]
+                            rec.probe("feature_dimension_changed_through_setters")
                     elif name == "parallel_stats":
                         import dask
-                        Xp = A(o["X"])
+                        Xp = cut(A(o["X"]))
                         blocks = np.array_split(Xp, o["parts"])
                         blocks = [b for b in blocks if len(b)]
                         # the concurrent calls are the FIRST use of the machine after an
@@ -424,7 +454,7 @@ def run_case(case, replay=None):
                         m.update_means, m.update_variances, m.update_weights = True, True, o["uw"]
                         m.max_fitting_steps = o["steps"]
                         m.convergence_threshold = None
-                        m.fit(A(o["X"]))
+                        m.fit(cut(A(o["X"])))
                         m.convergence_threshold = 1e-5
                         rec.probe("em_many_steps")
                     elif name == "deepcopy":
